@@ -2,7 +2,7 @@
 
 One instance; a plan is a history of steps over a small world of cells 1..4: definitions (solution, equilibrium phases,
 exchanger, surface with implicit / explicit diffuse layer, fixed-pressure or fixed-volume gas phase, solid solution, kinetic
-reactant; one plan in four on pitzer.dat, whose solver loop model_pitzer is a separate copy), batch reactions  USE ... / REACTION / SAVE ... n,  RUN_CELLS with a time step, MIX, and chaining of one step's
+reactant; 30 % of the plans on another database: pitzer.dat (solver loop model_pitzer), sit.dat (model_sit), wateq4f.dat), batch reactions  USE ... / REACTION / SAVE ... n,  RUN_CELLS with a time step, MIX, and chaining of one step's
 products into the next.  DUMP -all is read before and after every step by an independent RAW reader; a formula parser turns
 phase, gas, solid-solution and kinetic formulas (a hand table transcribed from phreeqc.dat and the plan itself, not the
 engine) into element vectors.
@@ -24,7 +24,7 @@ PROP = "C02"
 LEVEL = "exploration"
 VARIANTS = ["asan"]
 RULE = ("histories of 3-10 steps over cells 1..4 with seeded reactant sets, amounts, step counts, incremental or cumulative steps and SAVE/USE chaining; every third plan "
-        "forces the retry ladder through hook H1 (modes post and pre), every fourth draws KNOBS -iterations from {8..20}, every other fourth draws a whole set of legal KNOBS; one plan in four runs on pitzer.dat. Non-trivial = a step with a non-zero change of at "
+        "forces the retry ladder through hook H1 (modes post and pre), every fourth draws KNOBS -iterations from {8..20}, every other fourth draws a whole set of legal KNOBS; 30 % of the plans run on pitzer.dat, sit.dat or wateq4f.dat. Non-trivial = a step with a non-zero change of at "
         "least one element inventory of an entity; distinct = distinct (reactant kinds in the stepped cell, step kind, chained?, fault configuration).")
 COMPONENTS = {"real": "whole IPhreeqc library from /repo's working tree (ASan+UBSan) incl. the solver's retry ladder (set_and_run_wrapper)",
               "stub": "hook H1 callback (guarded by IPHREEQC_VERIF) deciding which attempts are reported as failed; clock() frozen"}
@@ -147,7 +147,11 @@ def inventory(ent):
 # database profiles: which gases / solid-solution end members / reactants exist.  pitzer.dat has no N, no redox couple and no
 # Strontianite; its solver loop (model_pitzer) is a separate copy of model()
 DBPROF = {"phreeqc": {"file": PHREEQC_DAT, "ss": ("Calcite", "Strontianite"), "n2": True, "o2": True, "drop": ()},
-          "pitzer": {"file": os.path.join(DBDIR, "pitzer.dat"), "ss": ("Gypsum", "Celestite"), "n2": False, "o2": False, "drop": ("O2", "CH2O")}}
+          "pitzer": {"file": os.path.join(DBDIR, "pitzer.dat"), "ss": ("Gypsum", "Celestite"), "n2": False, "o2": False, "drop": ("O2", "CH2O")},
+          # sit.dat (solver loop model_sit) and wateq4f.dat define no exchanger X and no surface Hfo; with sit.dat a gas phase holding N2/O2
+          # ends in 'S has not converged' or runs for minutes (reported errors, nothing to judge): no gas phases there
+          "sit": {"file": os.path.join(DBDIR, "sit.dat"), "ss": ("Calcite", "Strontianite"), "n2": True, "o2": True, "drop": ("O2", "CH2O"), "nokinds": ("exchange", "surface", "gas_phase")},
+          "wateq4f": {"file": os.path.join(DBDIR, "wateq4f.dat"), "ss": ("Calcite", "Strontianite"), "n2": True, "o2": True, "drop": (), "nokinds": ("exchange", "surface")}}
 STATE_KINDS = ["solution", "equilibrium_phases", "exchange", "surface", "gas_phase", "solid_solutions", "kinetics"]
 SAVABLE = ["equilibrium_phases", "exchange", "surface", "gas_phase", "solid_solutions"]
 REACTANTS = {"NaCl": "NaCl", "CaCl2": "CaCl2", "HCl": "HCl", "NaOH": "NaOH", "CO2": "CO2", "CaCO3": "CaCO3", "SrCl2": "SrCl2", "Na2SO4": "Na2SO4", "H2O": "H2O", "MgCl2": "MgCl2", "O2": "O2", "CH2O": "CH2O"}
@@ -263,11 +267,19 @@ def generate(rng, tier, index):
                  "diagonal_scale": rng.chance(30), "tolerance": rng.choice([1e-15, 1e-15, 1e-14, 1e-16]), "convergence_tolerance": rng.choice([1e-8, 1e-8, 1e-10, 1e-12]),
                  "delay_mass_water": rng.chance(20), "numerical_derivatives": rng.chance(15)}
     plan = {"prop": PROP, "cells": cells, "steps": steps, "fault": fault}
-    if rng.chance(25):
-        plan["db"] = "pitzer"
+    r = rng.below(100)
+    db = "phreeqc" if r < 70 else "pitzer" if r < 85 else "sit" if r < 93 else "wateq4f"
+    if db != "phreeqc":
+        plan["db"] = db
+        prof = DBPROF[db]
         for st in steps:
             if st["op"] == "react" and st["rx"]:
-                st["rx"]["names"] = [nc for nc in st["rx"]["names"] if nc[0] not in DBPROF["pitzer"]["drop"]] or [["NaCl", 1]]
+                st["rx"]["names"] = [nc for nc in st["rx"]["names"] if nc[0] not in prof["drop"]] or [["NaCl", 1]]
+            if st["op"] == "react" and st.get("extra") and st["extra"]["kind"] in prof.get("nokinds", ()):
+                st["extra"]["kind"] = "equilibrium_phases"
+        for c in cells:
+            for kd in prof.get("nokinds", ()):
+                c["kinds"].pop(kd, None)
     return plan
 
 
